@@ -43,7 +43,7 @@ func split(ctx context.Context, r io.Reader) (<-chan string, <-chan error) {
 		}
 		if err := sc.Err(); err != nil {
 			verifPoint("split.err")
-			errc <- err
+			sendErr(ctx, errc, err)
 			return
 		}
 		select {
